@@ -350,7 +350,11 @@ class Run(object):
         first = self._decide()
         if first is not None:
             self.thr[first].sem.release()
-            self.ctl.acquire()                # until the last thread finishes or the run is abandoned
+            # until the last thread finishes or the run is abandoned; a thread that blocks on something the scheduler
+            # does not control (a lock of its own that another, parked thread holds) never hands control back
+            if not self.ctl.acquire(12.0):
+                self.abort = True
+                self.outcome = "stuck"
         if self.abort:
             for tid in self.order:            # unwind every parked thread
                 self.thr[tid].sem.release()
